@@ -127,8 +127,17 @@ class FluxContract:
             cur().add_fact(z3.Implies(same, T.treal(g.at(f1)) == T.treal(g.at(f2))))
         return same
 
-    def instance_consistency(self, f):
+    def instance_consistency(self, f, at_state=None):
+        """consistency at face f; with `at_state` = W the instance reads: both face states equal W
+        implies G_k(f) = f_k(W) (same clause, the physical flux written on the given state terms)"""
         WL, WR, nrm = self._split(self.last["args_at"](f))
+        if at_state is not None:
+            W = list(at_state)
+            phys = C.physical_flux(self.kind, W, self.info, nrm)
+            same = z3.And(*([x == w for x, w in zip(WL, W)] + [y == w for y, w in zip(WR, W)]))
+            for k, g in enumerate(self.last["G"]):
+                cur().add_fact(z3.Implies(same, T.treal(g.at(f)) == phys[k]))
+            return same
         phys = C.physical_flux(self.kind, WL, self.info, nrm)
         same = z3.And(*[x == y for x, y in zip(WL, WR)])
         for k, g in enumerate(self.last["G"]):
